@@ -80,6 +80,15 @@ func (x *Exec) bodyEnv(fr *Frame, n *Node, st *State, at *ssa.BasicBlock) *Env {
 			if !isCur {
 				state = entry
 			}
+			if fr.depth == 0 && fr.contract != nil {
+				for _, g := range fr.contract.Ghosts {
+					if g.Name == name {
+						t := x.get(state, x.ghostVar(fr, g))
+						t.T = x.ghostType(fr, g)
+						return t, true, nil
+					}
+				}
+			}
 			if name == "$visited" || name == "iter" || (strings.HasPrefix(name, "iter") && isDigits(name[4:])) {
 				// the loop's own iteration state (iter), or that of the loop with ordinal N (iterN)
 				h := at
@@ -229,6 +238,17 @@ func (p *Program) verifyFunction(fc *FuncContract, fn *ssa.Function) *VC {
 		env := x.paramEnv(fc, pkg, params, results, cur, fr.entry)
 		base := env.lookup
 		env.lookup = func(name string, isCur bool) (Term, bool, error) {
+			for _, g := range fc.Ghosts {
+				if g.Name == name {
+					state := cur
+					if !isCur {
+						state = fr.entry
+					}
+					t := x.get(state, x.ghostVar(fr, g))
+					t.T = x.ghostType(fr, g)
+					return t, true, nil
+				}
+			}
 			for _, fv := range fn.FreeVars {
 				if fv.Name() == name {
 					state := cur
@@ -244,6 +264,12 @@ func (p *Program) verifyFunction(fc *FuncContract, fn *ssa.Function) *VC {
 			return base(name, isCur)
 		}
 		return env
+	}
+	for _, g := range fc.Ghosts {
+		if t := x.ghostType(fr, g); t != nil {
+			x.set(st, x.ghostVar(fr, g), x.ss.zero(t).S)
+			x.set(fr.entry, x.ghostVar(fr, g), x.ss.zero(t).S)
+		}
 	}
 	for _, r := range fc.Requires {
 		f, err := x.trBool(r.Expr, mkEnv(nil, st, entry))
@@ -554,4 +580,104 @@ func insideSourceLoop(fn *ssa.Function, pos token.Pos) bool {
 		return true
 	})
 	return found
+}
+
+func (x *Exec) ghostType(fr *Frame, g GhostVar) types.Type {
+	t, err := x.prog.resolveType(g.Type, fnPkg(fr.fn))
+	if err != nil {
+		x.prog.contractErrors = append(x.prog.contractErrors, contractErr{Fn: fr.contract.Key(), Clause: "ghost " + g.Name, Err: err.Error(), Props: fr.contract.Props})
+		return nil
+	}
+	return t
+}
+
+func (x *Exec) ghostVar(fr *Frame, g GhostVar) string {
+	name := "ghost." + g.Name
+	if _, ok := x.vc.heapSort[name]; !ok {
+		t := x.ghostType(fr, g)
+		if t == nil {
+			x.vc.heapSort[name] = SInt
+		} else {
+			x.vc.heapSort[name] = x.ss.sortOf(t)
+			x.vc.cellType[name] = t
+		}
+	}
+	return name
+}
+
+// afterCall applies the contract's "after call TARGET set g = e" ghost updates once the call's results are known.
+func (x *Exec) afterCall(c *callCtx, targets []string) {
+	fr := c.fr
+	if fr.depth != 0 || fr.contract == nil || len(fr.contract.Afters) == 0 {
+		return
+	}
+	type upd struct {
+		g GhostVar
+		v Term
+	}
+	var ups []upd
+	for _, as := range fr.contract.Afters {
+		match := false
+		for _, t := range targets {
+			if as.Target == t || strings.HasSuffix(t, "."+as.Target) {
+				match = true
+			}
+		}
+		if !match {
+			continue
+		}
+		env := x.bodyEnv(fr, c.n, c.st, c.instr.Block())
+		base := env.lookup
+		env.lookup = func(name string, isCur bool) (Term, bool, error) {
+			if strings.HasPrefix(name, "result") {
+				if name == "result" && len(c.res) == 1 {
+					return c.res[0], true, nil
+				}
+				if k, err := strconv.Atoi(name[6:]); err == nil && k < len(c.res) {
+					r := c.res[k]
+					if k < len(c.resTypes) {
+						r.T = c.resTypes[k]
+					}
+					return r, true, nil
+				}
+			}
+			if strings.HasPrefix(name, "arg") {
+				if k, err := strconv.Atoi(name[3:]); err == nil && k < len(c.args) {
+					a := c.args[k]
+					if k < len(c.argVals) {
+						a.T = c.argVals[k].Type()
+					}
+					return a, true, nil
+				}
+			}
+			return base(name, isCur)
+		}
+		var gv *GhostVar
+		for i := range fr.contract.Ghosts {
+			if fr.contract.Ghosts[i].Name == as.Name {
+				gv = &fr.contract.Ghosts[i]
+			}
+		}
+		if gv == nil {
+			x.contractError(fr, as.Clause, fmt.Errorf("no ghost variable %q", as.Name))
+			continue
+		}
+		v, err := x.tr(as.Clause.Expr, env)
+		if err != nil {
+			x.contractError(fr, as.Clause, err)
+			continue
+		}
+		gt := x.ghostType(fr, *gv)
+		if gt != nil {
+			v = x.coerceNil(v, x.ss.sortOf(gt))
+			if v.Sort != x.ss.sortOf(gt) {
+				x.contractError(fr, as.Clause, fmt.Errorf("ghost %s has sort %s, value has %s", gv.Name, x.ss.sortOf(gt), v.Sort))
+				continue
+			}
+		}
+		ups = append(ups, upd{*gv, v})
+	}
+	for _, u := range ups {
+		x.setNamed(c.n, c.st, x.ghostVar(fr, u.g), u.v.S)
+	}
 }
